@@ -41,7 +41,7 @@ def cases(tier, seed):
     targets = [-250.0, -290.0] + band_pts + [-330.0, -400.0]
     out = []
     shapes = ["caterpillar", "balanced", "random"]
-    models = ["JC69", "HKY", "GTR+W4", "HKY-states"]
+    models = ["JC69", "HKY", "GTR+W4", "HKY-states", "HKY+I"]  # +I: rate categories with unequal probabilities
     combos = [(s, m) for s in shapes for m in models]
     reps = 1 if tier == "quick" else 6
     for rep in range(reps):
@@ -57,7 +57,7 @@ def cases(tier, seed):
                             "history": bool(rng.random() < 0.5), "batch": bool(rng.random() < 0.3), "conserved": bool(rng.random() < 0.4), "dup": bool(rng.random() < 0.5)})
     # far beyond underflow (large trees): few cases
     for i in range(2 if tier == "quick" else 12):
-        out.append({"shape": shapes[i % 3], "model": models[i % 4], "scale": 1.0, "target": -1000.0, "seed": int(rng.integers(2**31)),
+        out.append({"shape": shapes[i % 3], "model": models[i % 5], "scale": 1.0, "target": -1000.0, "seed": int(rng.integers(2**31)),
                     "nsites": 2, "history": bool(i % 2), "batch": False, "conserved": bool(i % 2), "dup": bool(i % 3 == 0)})
     return out
 
@@ -77,6 +77,8 @@ def make(case, N):
     prng = np.random.default_rng(case["seed"])
     if m == "JC69":
         subst, site = {"kind": "JC69"}, {"kind": "constant"}
+    elif m == "HKY+I":
+        subst, site = {"kind": "HKY", "kappa": 3.0, "pi": [0.1, 0.2, 0.3, 0.4]}, {"kind": "invariant", "pinv": 0.3}
     elif m.startswith("HKY"):
         subst, site = {"kind": "HKY", "kappa": 3.0, "pi": [0.1, 0.2, 0.3, 0.4]}, {"kind": "constant"}
     else:
